@@ -336,15 +336,15 @@ func recomputeID(b *pb.InternalBlock) {
 }
 
 type verdict struct {
-	noop        bool
-	dup         bool
-	verifyOK    bool
-	singleOK    bool
-	key         string // violation key ("" = none)
-	sigValid    bool
-	verifyPanic string // VerifyBlock panicked (counted as refused)
-	singlePanic string // single.CheckMinerMatch panicked (counted as refused)
-	confirmedOK bool   // VerifyBlock on the ledger that already confirmed the base block
+	noop         bool
+	dup          bool
+	verifyOK     bool
+	singleOK     bool
+	key          string // violation key ("" = none)
+	sigValid     bool
+	verifyPanic  string // VerifyBlock panicked (counted as refused)
+	singlePanic  string // single.CheckMinerMatch panicked (counted as refused)
+	confirmedOK  bool   // VerifyBlock on the ledger that already confirmed the base block
 	confirmedKey string
 }
 
